@@ -282,7 +282,7 @@ pub fn write_integer_16(integer: u16, minimum: u16, s: &mut dyn Write) -> RdpRes
 /// assert!(read_object_identifier(&[0, 0, 20, 124, 0, 1], &mut s1).unwrap());
 /// let mut s2 = Cursor::new([6, 0, 20, 124, 0, 1]);
 /// assert!(read_object_identifier(&[0, 0, 20, 124, 0, 1], &mut s2).is_err());
-/// let mut s3 = Cursor::new([5, 0x11, 20, 124, 0, 1]);
+/// let mut s3 = Cursor::new([5, 41, 20, 124, 0, 1]);
 /// assert!(read_object_identifier(&[1, 1, 20, 124, 0, 1], &mut s3).unwrap())
 /// ```
 pub fn read_object_identifier(oid: &[u8], s: &mut dyn Read) -> RdpResult<bool> {
@@ -299,8 +299,8 @@ pub fn read_object_identifier(oid: &[u8], s: &mut dyn Read) -> RdpResult<bool> {
     let mut tmp : u8 = 0;
 
     tmp.read(s)?;
-    oid_parsed[0] = tmp >> 4;
-    oid_parsed[1] = tmp & 0xf;
+    oid_parsed[0] = tmp / 40;
+    oid_parsed[1] = tmp % 40;
     tmp.read(s)?;
     oid_parsed[2] = tmp;
     tmp.read(s)?;
@@ -321,16 +321,21 @@ pub fn read_object_identifier(oid: &[u8], s: &mut dyn Read) -> RdpResult<bool> {
 /// use rdp::core::per::write_object_identifier;
 /// let mut s = Cursor::new(vec![]);
 /// write_object_identifier(&[1, 2, 3, 4, 5, 6], &mut s).unwrap();
-/// assert_eq!(s.into_inner(), [5, 0x12, 3, 4, 5, 6]);
+/// assert_eq!(s.into_inner(), [5, 42, 3, 4, 5, 6]);
 /// ```
 pub fn write_object_identifier(oid: &[u8], s: &mut dyn Write) ->RdpResult<()> {
     if oid.len() != 6 {
         return Err(Error::RdpError(RdpError::new(RdpErrorKind::InvalidSize, "PER: oid source don't have the correct size")))
     }
 
+    // X.690 8.19: the first octet is 40 * arc1 + arc2, every following arc is written on a single octet
+    if oid[0] > 2 || oid[1] > 39 || oid[2..].iter().any(|arc| *arc > 127) {
+        return Err(Error::RdpError(RdpError::new(RdpErrorKind::InvalidData, "PER: oid arc out of range")))
+    }
+
     trame![
         5 as u8,
-        oid[0] << 4 | oid[1] & 0xF,
+        oid[0] * 40 + oid[1],
         oid[2],
         oid[3],
         oid[4],
